@@ -443,11 +443,13 @@ class ULPIControlTranslator(Elaboratable):
         write_requested = Signal(name=f"write_requested_{address:02x}")
         write_value     = Signal(8, name=f"write_value_{address:02x}")
         write_done      = Signal(name=f"write_done_{address:02x}")
+        write_active    = Signal(name=f"write_active_{address:02x}")
 
         self._register_signals[address] = {
             'write_requested': write_requested,
             'write_value':     write_value,
-            'write_done':      write_done
+            'write_done':      write_done,
+            'write_active':    write_active
         }
 
         # If we've just finished a write, update our current register value.
@@ -455,9 +457,11 @@ class ULPIControlTranslator(Elaboratable):
             m.d.usb += current_register_value.eq(write_value),
 
         # If we have a mismatch between the requested and actual register value,
-        # request a write of the new value.
-        m.d.comb += write_requested.eq(current_register_value != value)
-        with m.If(current_register_value != value):
+        # request a write of the new value. Once a write is in flight, keep requesting it
+        # (and stop tracking the value) until it's done: the register window then sees a
+        # stable address and value, and we always learn what the PHY's register now holds.
+        m.d.comb += write_requested.eq((current_register_value != value) | write_active)
+        with m.If((current_register_value != value) & ~write_active):
             m.d.usb += write_value.eq(value)
 
 
@@ -486,6 +490,9 @@ class ULPIControlTranslator(Elaboratable):
         self.populate_ulpi_registers(m)
 
         # Generate logic to handle changes on each of our registers.
+        any_write_active = Signal()
+        m.d.comb += any_write_active.eq(Cat(s['write_active'] for s in self._register_signals.values()).any())
+
         first_element = True
         for address, signals in self._register_signals.items():
 
@@ -493,8 +500,8 @@ class ULPIControlTranslator(Elaboratable):
             first_element = False
 
             # If we're requesting a write on the given register, pass that to our
-            # register window.
-            with conditional(signals['write_requested']):
+            # register window. A write that's already in flight keeps the window.
+            with conditional(signals['write_active'] | (signals['write_requested'] & ~any_write_active)):
 
                 # Keep track of when we'll be okay to start a write:
                 # it's when there's a write request, we're not complete.
@@ -517,6 +524,12 @@ class ULPIControlTranslator(Elaboratable):
                     # Status signals
                 ]
                 m.d.usb += self.busy.eq(request_write | self.register_window.busy)
+
+                # The write is in flight from the cycle the (idle) register window takes it until it's done.
+                with m.If(request_write & ~self.register_window.busy):
+                    m.d.usb += signals['write_active'].eq(1)
+                with m.If(self.register_window.done):
+                    m.d.usb += signals['write_active'].eq(0)
 
         # If no register accesses are active, provide default signal values.
         with m.Else():
